@@ -52,6 +52,9 @@ static Verdict run_once(const Case &c, World &w, int *ifi_io, int round) {
     if (round == 0) { ifi = w.add_if(ic); *ifi_io = ifi; }
     else { ifi = *ifi_io; size_t keep = w.ctx(ifi)->mtu; ic.mtu = keep; ic.apply(w.ctx(ifi), ifi); }   // same interface context, new attribute values (MTU and address stay)
     Mac m = {{2, 0xAA, 0, 0, 0, 1}};
+    // cfg[15]: the Hello under examination is not the first one - the same mapper's Discover of the OTHER service (generation cfg[15]) was answered just before,
+    // without a Reset in between; the properties describe the interface, not the history
+    if (c.c(15) > 0 && round == 0) (void)w.deliver(ifi, mk_discover(m, m, (uint8_t)((c.c(13) & 1) ^ 1), 1, (uint16_t)c.c(15), {}));
     std::vector<Ev> tx = sends_only(w.deliver(ifi, mk_discover(m, m, (uint8_t)(c.c(13) & 1), 1, 1, {})));
     if (tx.size() != 1) { v.fail(fmt("Discover answered by %zu frames", tx.size())); return v; }
     Hello h;
@@ -149,7 +152,7 @@ int main(int argc, char **argv) {
                      *gx::bnd({0, 1, 0xFF, 0x100, 0xFFFF, 0x0102}, 0, 0xFFFF, 1, 1), *gx::range<int64_t>(-128, 127), fail, *gx::pick({0, 1}),
                      *gx::weighted<int64_t>({{1, gx::pick({0, 0xFFFFFFFFFFFFLL})}, {6, gx::range<int64_t>(1, 0xFFFFFFFFFFFELL)}}), *gx::weighted<int64_t>({{1, gx::pick({0, 0xFFFFFFFFFFFFLL, 1, 0xFFFFFFFFFFFELL, 0x0000FF000000LL})}, {5, gx::range<int64_t>(0, 0xFFFFFFFFFFFFLL)}}),   // BSSID: every value the platform reports is encoded, all-zero and all-ones included
                     
-                     *gx::pick({576, 1500, 9216}), *gx::pick({0, 1}), *gx::pick({0, 0, 1, 2, 3})};
+                     *gx::pick({576, 1500, 9216}), *gx::pick({0, 1}), *gx::pick({0, 0, 1, 2, 3}), *gx::pick({0, 0, 0, 1, 5, 0xFFFF})};
             c.blobs = {*gx::bytes(0, 40), *gx::bytes(0, 40), *gx::bytes(16, 16)};
             // values that mean something elsewhere must still be encoded as they are: IANA interface types (24 = software loopback, 6, 71, 53, 131 ...)
             if (*gx::chance(15)) c.cfg[1] = *gx::pick({1, 6, 23, 24, 24, 53, 71, 131, 144, 161, 209, 243});
